@@ -179,9 +179,12 @@ func (p cacheProg) name() string {
 	for _, t := range p.Threads {
 		var os_ []string
 		for _, o := range t {
-			if o.Kind == "get" {
+			switch o.Kind {
+			case "get":
 				os_ = append(os_, "Get("+o.Key+")")
-			} else {
+			case "setmap":
+				os_ = append(os_, "SetMap({k3})")
+			default:
 				os_ = append(os_, "GetMap()")
 			}
 		}
@@ -226,6 +229,8 @@ func (p cacheProg) fresh() (func(), func(*verifsched.Exec) (string, string, stri
 					evn.call = verifsched.Now()
 					if o.Kind == "getmap" {
 						evn.snap = rc.GetMap()
+					} else if o.Kind == "setmap" {
+						rc.SetMap(map[string]string{"k3": "set"})
 					} else {
 						v, err := rc.Get(o.Key, func() (string, error) {
 							n := nfetch[o.Key]
@@ -265,13 +270,24 @@ func (p cacheProg) fresh() (func(), func(*verifsched.Exec) (string, string, stri
 		for _, evn := range events {
 			if evn.op.Kind == "getmap" {
 				ov = append(ov, fmt.Sprint(evn.snap))
+			} else if evn.op.Kind == "setmap" {
+				ov = append(ov, "set")
 			} else {
 				ov = append(ov, fmt.Sprintf("%s/%s/%v", evn.val, evn.err, evn.fetched))
 			}
 		}
 		out := strings.Join(ov, ";")
 		// (a) at most one successful fetch per key, and no fetch starts after a success returned
+		// (a concurrent SetMap replaces the whole map and may legitimately drop a cached key: for
+		// programs with SetMap the rule is left to the linearizability check below)
+		hasSet := false
+		for _, evn := range events {
+			hasSet = hasSet || evn.op.Kind == "setmap"
+		}
 		for _, f := range fetches {
+			if hasSet {
+				break
+			}
 			if !f.ok {
 				continue
 			}
@@ -281,7 +297,7 @@ func (p cacheProg) fresh() (func(), func(*verifsched.Exec) (string, string, stri
 				}
 			}
 		}
-		if p.Init {
+		if p.Init && !hasSet {
 			for _, f := range fetches {
 				if f.key == "k1" {
 					return "fetch-of-cached-key", "k1 was pre-populated but fetched", out
@@ -344,6 +360,24 @@ func linearizable(evs []*cevent, init map[string]string) bool {
 			var undo func()
 			legal := false
 			switch {
+			case e.op.Kind == "setmap":
+				prev := map[string]string{}
+				for k, v := range state {
+					prev[k] = v
+				}
+				for k := range state {
+					delete(state, k)
+				}
+				state["k3"] = "set"
+				legal = true
+				undo = func() {
+					for k := range state {
+						delete(state, k)
+					}
+					for k, v := range prev {
+						state[k] = v
+					}
+				}
 			case e.op.Kind == "getmap":
 				legal = reflect.DeepEqual(e.snap, state) || (len(e.snap) == 0 && len(state) == 0)
 				undo = func() {}
@@ -400,6 +434,13 @@ func cachePrograms(thorough bool) []cacheProg {
 			for i := range seqs {
 				for j := i; j < len(seqs); j++ {
 					progs = append(progs, cacheProg{[][]cop{seqs[i], seqs[j]}, ff, in})
+				}
+			}
+			// two threads where one replaces the map with a disjoint key while the other looks up / snapshots
+			setSeqs := [][]cop{{{"setmap", ""}}, {{"setmap", ""}, {"get", "k1"}}, {{"get", "k1"}, {"setmap", ""}}, {{"setmap", ""}, {"getmap", ""}}}
+			for _, ss := range setSeqs {
+				for i := range seqs {
+					progs = append(progs, cacheProg{[][]cop{ss, seqs[i]}, ff, in})
 				}
 			}
 			// three threads x 1 operation (multisets)
@@ -622,7 +663,7 @@ func main() {
 	r.Assume("scheduling points at Mutex/WaitGroup/channel operations, goroutine spawn and harness callbacks are sufficient; unsynchronised accesses are the business of the free-running -race pass")
 	r.Assume("instrumentation is regenerated from the repository's current cache.go and common.go on every build (overlay), nothing else in those packages spawns goroutines")
 	exhaustive := !total["cache"].HorizonCut && !total["patches"].HorizonCut
-	r.Finish(fmt.Sprintf("stateless DFS over scheduler choice sequences, preemption bound %d (every execution with <= %d preemptions; non-preemptive choices - blocked thread, channel delivery order - are unbounded), on: RequestCache programs (2 threads x 1-2 ops, 3 threads x 1 op, 3 threads x (2,2,1) ops, 4 threads x Get(k1), over {Get k1, Get k2, GetMap} x {all fetches ok, first fetch of a key fails} x {empty, pre-populated}); override/relax ComputePatches on universes with 2-3 vulnerabilities (callbacks = resolve-client and matcher calls). states = choice-tree nodes, transitions = scheduling steps, traces = complete executions of the real instrumented code; non-trivial = programs with >1 distinct outcome vector. Separate free-running -race pass: %d runs", bound, bound, raceRuns), exhaustive)
+	r.Finish(fmt.Sprintf("stateless DFS over scheduler choice sequences, preemption bound %d (every execution with <= %d preemptions; non-preemptive choices - blocked thread, channel delivery order - are unbounded), on: RequestCache programs (2 threads x 1-2 ops, 3 threads x 1 op, 3 threads x (2,2,1) ops, 4 threads x Get(k1), over {Get k1, Get k2, GetMap} plus 2-thread programs with a SetMap of a disjoint key, x {all fetches ok, first fetch of a key fails} x {empty, pre-populated}); override/relax ComputePatches on universes with 2-3 vulnerabilities (callbacks = resolve-client and matcher calls). states = choice-tree nodes, transitions = scheduling steps, traces = complete executions of the real instrumented code; non-trivial = programs with >1 distinct outcome vector. Separate free-running -race pass: %d runs", bound, bound, raceRuns), exhaustive)
 }
 
 func replay(rp string) {
